@@ -619,6 +619,13 @@ Definition is_self_cert (pid : N) (s : sigcore) : bool :=
   is_cert_type (sc_type s) &&
   match sc_issuer s with Some i => i =? pid | None => false end.
 
+(* addUserID :431 - the most recent self-signature; of two made in the same second the later one in the stream *)
+Definition should_replace_self (c : cfg) (existing : option sigcore) (new : sigcore) : bool :=
+  match existing with
+  | None => true
+  | Some e => if fix42 c then negb (sc_created new <? sc_created e) else true
+  end.
+
 (* shouldReplaceSubkeySig :484 *)
 Definition should_replace (existing : option sigcore) (new : sigcore) : bool :=
   match existing with
@@ -634,7 +641,7 @@ Definition step (c : cfg) (P : params) (primary : pubkey) (pid : N) (st : est) (
       let core := s_core s in
       if is_self_cert pid core then
         let* _ := verify_uid_sig c P primary name core in
-        Ok (Cont st (MUid name (Some core) others))
+        Ok (Cont st (MUid name (if should_replace_self c self core then Some core else self) others))
       else Ok (Cont st (MUid name self (others ++ [core])))
   | MSub k sg bd, PSig s =>
       (* addSubkey :442 *)
